@@ -110,7 +110,12 @@ def run(ctx, res):
     known = set(ctx.known)
     cases = [gen_doc_case(ctx.rng) for _ in range(ctx.scale(70, 2000))]
     batch = family.Batch(ctx)
-    whole = batch.run(cases)
+    # a quarter of the documents that YARRRML can express is written in YARRRML for the one-file run (the layouts below are Turtle)
+    def style_fn(c):
+        import hashlib
+        h = int(hashlib.md5(json.dumps(c['doc'], sort_keys=True).encode()).hexdigest(), 16)
+        return mapcase.Style(vocab='yarrrml') if (h % 4 == 1 and mapcase.yarrrml_ok(c)) else None
+    whole = batch.run(cases, style_fn=style_fn)
     items, meta = [], []
     for case, rec in zip(cases, whole):
         family.judge(res, rec, known)
@@ -169,6 +174,16 @@ def run(ctx, res):
             others = sum(comps[1:], [])
             dup_items.append((case, [[comp], [others], [comp]]))
             dup_items.append((case, [[others], [comp], [comp + []]]) if ctx.rng.random() < 0.5 else (case, [[comp], [comp], [others]]))
+    # ... also when the repeated map has no predicate-object map of its own (it is only the parent of referencing object maps)
+    from .c07 import gen_join_case
+    for _ in range(ctx.scale(6, 40)):
+        jc = gen_join_case(ctx.rng)
+        child, parent = jc['doc'][0], jc['doc'][1]
+        parent['poms'], parent['classes'], parent['nonasserted'] = [], [], False
+        other = {'id': EX + 'tm/Other', 'src': 'S0', 'nonasserted': False, 'subj': {'k': 'templ', 'v': EX + 'other/{id}', 'ck': 'iri', 'tt': ''}, 'sjoins': [], 'classes': [EX + 'class/Other'],
+                 'sgraphs': [], 'poms': []}
+        jc['doc'].append(other)
+        dup_items.append((jc, [[[child['id'], parent['id']]], [[other['id'], parent['id']]]]))
     for (case, lay), o in zip(dup_items, run_layouts(ctx, dup_items)):
         res.evaluations += 1
         res.count('duplicate-section:' + o[0])
